@@ -76,10 +76,14 @@ CLAIMED["C04"] = dict(
          "vnaconv(3) satisfies the output's with the computed matrix (complex, unequal z0, K_i = 1/sqrt|Re z_i|), "
          "in-place call equals out-of-place call, converting back returns the original, Zin_k = v_k/i_k with the "
          "other port terminated - are discharged by sympy as rational-function identities over exact complex "
-         "arithmetic.  This is a proof for all inputs off the singular set, in exact arithmetic.",
-    note="exact arithmetic instead of IEEE-754; n-port functions (stozn ... ytozin) and the n=2 agreement clause "
-         "are NOT covered; the contract language here is the generated VC, the verifier is sympy, not CBMC "
-         "(CBMC cannot decide double-complex arithmetic, DESIGN 1)",
+         "arithmetic: a proof for all inputs off the singular set, in exact arithmetic.  The 9 n-port functions are "
+         "executed by a small C interpreter over the same repository text (loops, VLAs, index macros; linear kernels "
+         "by exact contract): symbolic proof at n = 1 and n = 2, including agreement with the two-port function at "
+         "n = 2; at n = 3 (and 4 in thorough) only exact-rational INSTANCES with structured z0 patterns (polynomial "
+         "identity testing) - labelled bounded, not proof.",
+    note="exact arithmetic instead of IEEE-754; n >= 3 by instances only; linear kernels by contract (their "
+         "numerics: C19); the verifier here is sympy on generated VCs, not CBMC (CBMC cannot decide double-complex "
+         "arithmetic, DESIGN 1)",
     design="DESIGN.md 2.2 E5, 3 C04, 8.6",
     technique="generated verification conditions from the parsed real function bodies, discharged by sympy",
 )
@@ -107,9 +111,10 @@ CLAIMED["C12"] = dict(
          "memory-safety violation, documented failure value, errno ENOMEM, one SYSTEM error report, object well "
          "formed afterwards, the repeated call succeeds silently, the history ends in the fault-free state, and "
          "nothing remains allocated after the free functions.",
-    note="quick tier: vnadata script (alloc, init, setters incl. both z0 mode switches, resize grow/shrink, free); "
-         "thorough adds add_frequency (0->50 allocation step) and the vnacal create/parameters/free script; "
-         "add_*/solve/save/load paths are outside",
+    note="quick tier scripts: vnadata (alloc, init, setters incl. both z0 mode switches, resize grow/shrink, free), "
+         "vnacal_new (create, new_alloc, add_single_reflect_m, free; K=21), addcal (replace by name, grow the "
+         "table); thorough adds add_frequency (0->50 allocation step) and the vnacal create/parameters/free "
+         "script; every run also proves that its injected fault was reached; a/b forms, solve, save/load are outside",
     design="DESIGN.md 2.2 E4, 3 C12, 8.7",
     technique="exhaustive single-allocation-fault enumeration, one CBMC proof run per fault index",
 )
@@ -129,7 +134,10 @@ CLAIMED["C13"] = dict(
 
 CLAIMED["C01"] = dict(
     level="proof",
-    text="PARTIAL (structural links only). (1) _vnacal_layout carries a DFCC function contract: for all 9 error-term "
+    text="PARTIAL (structural links only). (0) cell mapping of _vnacal_new_add_common along real histories: a two-port "
+         "standard with an abbreviated 2x2 measurement matrix and any port order on a 3x3 calibration lands on the "
+         "sorted ports' M cells and on S cells map[a],map[b]; connected/unconnected cells hold the zero parameter. "
+         "(1) _vnacal_layout carries a DFCC function contract: for all 9 error-term "
          "types and dimensions 1..8 the sub-matrix regions plus outside leakage terms partition [0, error_terms) "
          "and every region has the size documented by the header's own VL_*_ROWS/COLUMNS macros (full, diagonal or "
          "per-column). (2) The matrices vnacal_apply hands to the linear solver for T8, TE10 and T16 calibrations "
@@ -137,7 +145,7 @@ CLAIMED["C01"] = dict(
          "subtracted, on the function text extracted from vnacal_apply.c each run and compiled over the ring Z/256. "
          "With the assumed kernel contract (solve returns the solution) this gives S = (Ts - M Tx)^-1 (M Tm - Ti) "
          "in exact arithmetic for those types.",
-    note="NOT covered: the calibrate side (_vnacal_new_add_common cell mapping, equation term generation, solve), "
+    note="NOT covered: equation term generation, solve, "
          "fill_u8/u16/ue14/e12, rfi values between knots, accuracy.  The end-to-end numerical statement of C01 is "
          "out of reach of contract verification with CBMC; a numerical defect that keeps indices intact is invisible",
     design="DESIGN.md 3 C01, 8.9",
@@ -157,7 +165,10 @@ CLAIMED["C07"] = dict(
 )
 CLAIMED["C17"] = dict(
     level="proof",
-    text="NARROW: only the clause 'a through equals the line (0,1;1,0) equals the corresponding mapped matrix', for "
+    text="NARROW, two clauses.  (1) build_connectivity_matrix equals its specification - ports connected iff in the "
+         "same block of S, the closure of 'S_ij or S_ji not known zero' - for EVERY zero pattern on 3 ports (2-4 in "
+         "thorough), so the block structure does not depend on the port numbering (the combinatorial core of the "
+         "renumbering clause).  (2) 'a through equals the line (0,1;1,0) equals the corresponding mapped matrix', for "
          "both the a/b and the m forms: with the body of the common funnel _vnacal_new_add_common removed from the "
          "compiled unit and replaced by a recording contract, the three entry points are proved to hand the funnel "
          "field-for-field identical descriptions (dimensions, matrix pointers, the four S parameters, the port map, "
@@ -220,8 +231,8 @@ CLAIMED["C19"] = dict(
     text="NARROW (structural clauses of the LU kernel; backward stability itself is not decidable here).  On the "
          "real _vnacommon_lu: the pivot of a column is the row largest relative to its own row maximum (scaled "
          "partial pivoting, the documented row_scale rule) - exhaustively for all 256 2x2 matrices over "
-         "{1,2,3,100}; multiplying rows by powers of two (2^-30..2^30, 49 combinations) leaves the pivot sequence "
-         "unchanged; row_index is a permutation; for every finite 2x2 matrix with a zero first column or row the "
+         "{1,2,3,100}; multiplying rows by powers of two (2^-30..2^30) leaves the pivot sequence unchanged for a "
+         "2x2 and a 3x3 witness matrix (the 3x3 one displaces the scaled row by a swap); row_index is a permutation; for every finite 2x2 matrix with a zero first column or row the "
          "returned determinant is 0 or non-normal, so the call sites' singularity test fires (full double domain).",
     note="residual size, QR orthogonality, least-squares minimality, n > 2, 'astronomically large output', and that "
          "every call site tests the determinant: NOT covered; complex compiled as double",
